@@ -110,9 +110,21 @@ class Addr:
     __radd__ = __add__
 
 
+SIZEOF = {"int8_t": 1, "uint8_t": 1, "char": 1, "int16_t": 2, "uint16_t": 2, "int32_t": 4, "uint32_t": 4, "float": 4, "int64_t": 8, "uint64_t": 8, "double": 8}
+
+
 class Ptr:
     def __init__(self, ctype, addr):
         self.ctype, self.addr = ctype, addr
+
+    def __add__(self, k):
+        """C pointer arithmetic: counts in elements of the pointed-to type (opaque struct types have no size)"""
+        base = self.ctype[:-1] if self.ctype.endswith("*") else None
+        if base not in SIZEOF:
+            raise TypeError(f"ctype '{self.ctype}' points to items of unknown size")
+        return Ptr(self.ctype, self.addr + k * SIZEOF[base])
+
+    __radd__ = __add__
 
 
 class _CT:
